@@ -410,9 +410,11 @@ wait:
 }
 
 func genPrioRealScenario(rng *rand.Rand, vers []string, ctl bool) PrioRealScenario {
-	g := genPrioScenario(rng, prioGen{Vers: vers, Dividers: allDividers, Mode: map[bool]string{true: "addrm", false: "general"}[ctl && len(vers) == 1 && vers[0] == "v1"], MaxH: 32})
+	// with control calls every subset of the registrable priorities must be non-fatal for H
+	mode := map[bool]string{true: "addrm", false: "general"}[ctl && len(vers) == 1 && vers[0] == "v1"]
+	g := genPrioScenario(rng, prioGen{Vers: vers, Dividers: allDividers, Mode: mode, MaxH: 32})
 	for g.H > 64 {
-		g = genPrioScenario(rng, prioGen{Vers: vers, Dividers: allDividers, Mode: "general", MaxH: 32})
+		g = genPrioScenario(rng, prioGen{Vers: vers, Dividers: allDividers, Mode: mode, MaxH: 32})
 	}
 	sc := PrioRealScenario{Ver: g.Ver, Divider: g.Divider, DivSeed: g.DivSeed, H: g.H, Seed: rng.Uint64()}
 	sc.HoldUs = []int{0, 20, 200, 1500}[rng.IntN(4)]
